@@ -15,7 +15,8 @@ from lib import dstr
 from props import cons as C
 from props import textcmp as T
 
-NAMES = ['f0', 'a b', 'é', 'F_3', 'x.y', 'sep name', 'nel\x85x', 'quote"q', 'back\\slash', '雪', 'tab\tname']
+NAMES = ['f0', 'a b', 'é', 'F_3', 'x.y', 'sep name', 'nel\x85x', 'quote"q', 'back\\slash', '雪', 'tab\tname',
+         '#items', '# of rows', 'cafe\u0301s', 'Zoe\u0308', '\u2126 ohm', 'caf\u00e9s']
 REXES = [r'^[a-z]+$', r'^\d{4}-\d\d$', r'^a\\b$', r'^"q"$', r'^.*$', r"^it's$", r'^\S+\s\S+$', '^é+$']
 
 
